@@ -242,6 +242,10 @@ func WatchGlobals() {}
 // zero node) and returns how many there are. Natively 0: the real decoder does it.
 func CallUnmarshalers(target any) int { return 0 }
 
+// PooledAccesses counts, under the executor, reads and writes of memory that
+// had been handed back to a sync.Pool (use after Put). 0 natively.
+func PooledAccesses() int { return 0 }
+
 // Touch tells the executor that a model method writes the object ptr points
 // to (a stateful writer, hasher, compressor): sharing such an object between
 // two packagings is then seen as a write to shared memory. No-op natively,
